@@ -122,7 +122,7 @@ func DefaultLiteral(t *Type) string {
 	case String:
 		return `"dflt"`
 	case Bytes:
-		return `"AB"`
+		return `"A\u00e9\u0080"` // a byte string is one code point U+0000..U+00FF per byte
 	case Enum:
 		return fmt.Sprintf("%q", t.Symbols[1%len(t.Symbols)])
 	case Fixed:
